@@ -30,9 +30,12 @@ func (h *H) heldScenario(cfg Cfg, first []Frame, tail int, intruder bool) {
 	}
 	opened := make(chan error, 1)
 	go func() { opened <- r.Open() }() // the active role dials (and is held) inside Open
-	p, err := r.Connect(stepTimeout)
+	p, err := r.Connect(rigCeiling)
 	if err != nil {
-		c.Fail("rig: "+err.Error(), "held")
+		c.Count("held:discarded")
+		c.Count("held:discarded: " + err.Error())
+		hc.armed.Store(false)
+		hc.Release()
 		_ = r.Close()
 		return
 	}
@@ -42,7 +45,7 @@ func (h *H) heldScenario(cfg Cfg, first []Frame, tail int, intruder bool) {
 		// a second peer connects while the first connection's TCP-up is still held
 		go func() {
 			defer close(secondDone)
-			second, _ = r.dialPassive(2 * stepTimeout)
+			second, _ = r.dialPassive(2 * rigCeiling)
 		}()
 	} else {
 		close(secondDone)
@@ -60,17 +63,23 @@ func (h *H) heldScenario(cfg Cfg, first []Frame, tail int, intruder bool) {
 		f := h.randFrame(c.Rng, cfg, o)
 		return &f
 	})
-	_ = res
+	if res.discarded {
+		// release the transport if it is still parked, then tear the rig down without a verdict
+		hc.armed.Store(false)
+		hc.Release()
+	}
 	select {
 	case err := <-opened:
-		if err != nil {
+		if err != nil && !res.discarded {
 			c.Fail("rig: open: "+err.Error(), "held")
 		}
-	case <-time.After(stepTimeout):
-		c.Fail("rig: Open did not return", "held")
+	case <-time.After(rigCeiling):
+		if !res.discarded {
+			c.Fail("rig: Open did not return within the ceiling", "held")
+		}
 	}
 	<-secondDone
-	if intruder && !cfg.Active {
+	if intruder && !cfg.Active && !res.discarded {
 		c.Count("held-tcpup:intruder")
 		if second == nil {
 			c.Fail("second connection: the listener no longer accepts", "held-tcpup "+cfg.M())
@@ -100,18 +109,30 @@ func (h *H) heldCommitSelected(cfg Cfg) {
 	}
 	opened := make(chan error, 1)
 	go func() { opened <- r.Open() }()
-	p, err := r.Connect(stepTimeout)
-	if err != nil {
-		c.Fail("rig: "+err.Error(), "held")
+	discard := func(why string) {
+		c.Count("held:discarded")
+		c.Count("held:discarded: " + why)
 		_ = r.Close()
+	}
+	p, err := r.Connect(rigCeiling)
+	if err != nil {
+		discard(err.Error())
 		return
 	}
-	<-opened
+	select {
+	case <-opened:
+	case <-time.After(rigCeiling):
+		discard("Open did not return within the ceiling")
+		return
+	}
 	if cfg.Active {
-		if _, res := p.Next(stepTimeout); res != readFrame { // the library's own Select.req
-			c.Fail("rig: no Select.req from the active side", "held-commit")
+		if _, res := p.Next(rigCeiling); res != readFrame { // the library's own Select.req
+			_ = p.Conn.Close()
+			discard("the peer did not see the active side's Select.req within the ceiling")
+			return
 		}
 	}
+	c.Count("held:established")
 	req := selectReq(cfg.Sid, 0x4242)
 	_ = p.Send(req)
 	f, res := p.Next(stepTimeout)
